@@ -508,3 +508,82 @@ def r01h(ctx, rep, rule="R01h"):
                      detail={"expansion": repr(core)[:500]})
         else:
             rep.ok(rule, key, "%s: user expressions see only the variables the user declared" % name, [path])
+
+
+def free_vars(core, env=frozenset(), out=None):
+    """symbols referenced (or assigned) free in a core form"""
+    out = out if out is not None else set()
+    if isinstance(core, Sym):
+        if str(core) not in env and not core.startswith("%"):
+            out.add(str(core))
+        return out
+    if isinstance(core, tuple) or not isinstance(core, list) or not core:
+        return out
+    head = core[0]
+    if head == "quote":
+        return out
+    if isinstance(head, Sym) and head in ("lambda", "λ") and len(core) >= 2:
+        formals = core[1]
+        names = set()
+        if isinstance(formals, list):
+            names = {str(x) for x in formals if isinstance(x, Sym) and x != "."}
+        elif isinstance(formals, Sym):
+            names = {str(formals)}
+        inner = frozenset(env | names)
+        for e in core[2:]:
+            free_vars(e, inner, out)
+        return out
+    if head == "if":
+        for e in core[1:]:
+            free_vars(e, env, out)
+        return out
+    if head in ("set!", "define"):
+        for e in core[1:]:
+            free_vars(e, env, out)
+        return out
+    for e in core:
+        free_vars(e, env, out)
+    return out
+
+
+def prelude_globals(forms):
+    out = set()
+    for fm in forms:
+        if isinstance(fm, list) and len(fm) >= 2 and fm[0] == "define":
+            t = fm[1]
+            if isinstance(t, list) and t:
+                out.add(str(t[0]))
+            elif isinstance(t, Sym):
+                out.add(str(t))
+    return out
+
+
+def r01p(ctx, rep, rule="R01p"):
+    from . import popbalance
+    rep.rule(rule, "what a derived form introduces is bound: in the core expansion of each schematic instance, every identifier that "
+             "is free (not a variable of the instance, not bound by a lambda of the expansion, not quoted) is a global the "
+             "prelude defines or a registered builtin. A template that mentions an identifier nobody defines — `<undefined>` in "
+             "letrec* — makes every use of the form fail with `is not bound`.")
+    try:
+        macros, forms, path = load_macros(ctx["root"])
+    except (OSError, IndexError) as e:
+        rep.anchor_lost(rule, "marwood/prelude.scm unreadable: %s" % e)
+        return
+    known = prelude_globals(forms) | set(popbalance.scheme_registry(ctx["facts"]))
+    rep.floor(rule, "globals defined by the prelude or registered as builtins", len(known), 150)
+    user = {"x", "y", "f", "i", "loop", "k", "a", "b", "c"}
+    for name, text in INSTANCES:
+        key = "%s|%s" % (rule, name)
+        try:
+            core = expand(S(text), macros)
+        except RecursionError as e:
+            rep.fail(rule, key, "%s: %s" % (text, e), [path])
+            continue
+        fv = {v for v in free_vars(core) if v not in user and v not in ("if", "lambda", "set!", "define", "quote", "no-rule")}
+        unbound = sorted(v for v in fv if v not in known)
+        if unbound:
+            rep.fail(rule, key, "the expansion of %s refers to %s, which neither the prelude nor the builtin registry defines: "
+                     "every use of the form fails with `%s is not bound`" % (text, ", ".join(unbound), unbound[0]), [path],
+                     detail={"expansion": repr(core)[:500]})
+        else:
+            rep.ok(rule, key, "%s: identifiers introduced by the expansion are defined (%s)" % (name, ", ".join(sorted(fv)) or "none"), [path])
